@@ -14,7 +14,7 @@ RULE = (
     "Case = (vertical filter 0..6, horizontal filter 0..6, dwt_depth 0..4, dwt_depth_ho 0..4, component "
     "Y/C1/C2, integer picture of 1..20 x 1..20 samples); the other component is given a different size so a "
     "component mix-up shows. Enumerated part: every one of the 49 x 25 filter-pair/depth combinations with R "
-    "pictures each (quick R=3, thorough R=40; sizes and contents from random.Random seeded by VERIF_SEED and the "
+    "pictures each (quick R=3, thorough R=80; sizes and contents from random.Random seeded by VERIF_SEED and the "
     "combination index; one of the R sizes is 1..5). Generated part: Hypothesis draws all parameters; picture "
     "kinds: noise, constant, single impulse, ramp, +-extreme checkerboard, explicit <=4x4 picture tiled from 4 drawn integers up to 2^64; "
     "magnitudes: +-4, 10 bit, +-2^15, +-2^40, +-2^200. Oracle: idwt_pad_removal(idwt(dwt(dwt_pad_addition(p)))) == p "
@@ -258,7 +258,7 @@ def run_shard(spec, ctx):
     col = ctx.col
     if spec[0] == "enum":
         _, k, n = spec
-        rounds = ctx.pick(3, 40)
+        rounds = ctx.pick(3, 80)
         for idx in range(N_COMBOS):
             if idx % n != k:
                 continue
@@ -283,7 +283,7 @@ def run_shard(spec, ctx):
                                                         and len(pic) * len(pic[0]) <= 12
                                                         and case["mag"] in ("tiny", "10bit", "2^15")))
 
-        run_given(case_strategy(), body, ctx, ctx.pick(500, 24000))
+        run_given(case_strategy(), body, ctx, ctx.pick(500, 50000))
     else:
         raise ValueError(spec)
 
